@@ -5,6 +5,7 @@ import (
 	"encoding/hex"
 	"io"
 	"lunar/engine/utils/environment"
+	"lunar/toolkit-core/verifhook"
 	"os"
 	"path/filepath"
 )
@@ -157,6 +158,9 @@ func (fs *FileSystemOperation) SaveMetricsConfig(content []byte) error {
 }
 
 func (fs *FileSystemOperation) cleanUpFile(filePath string) error {
+	if err := verifhook.Fault("fs.remove", filePath); err != nil {
+		return err
+	}
 	if err := os.Remove(filePath); err != nil && !os.IsNotExist(err) {
 		return err
 	}
@@ -164,6 +168,9 @@ func (fs *FileSystemOperation) cleanUpFile(filePath string) error {
 }
 
 func (fs *FileSystemOperation) cleanUpDirectory(cleanupPath string) error {
+	if err := verifhook.Fault("fs.walk", cleanupPath); err != nil {
+		return err
+	}
 	err := filepath.Walk(cleanupPath, func(path string, info os.FileInfo, err error) error {
 		if err != nil {
 			return err
@@ -177,6 +184,9 @@ func (fs *FileSystemOperation) cleanUpDirectory(cleanupPath string) error {
 }
 
 func (fs *FileSystemOperation) storeFileOnDisk(filePath string, content []byte) error {
+	if err := verifhook.Fault("fs.store", filePath); err != nil {
+		return err
+	}
 	_ = fs.cleanUpFile(filePath)
 
 	dir := filepath.Dir(filePath)
@@ -238,6 +248,9 @@ func (fs *FileSystemOperation) backupDirectory(
 	dirPath string,
 	backup *FileSystemBackUp,
 ) error {
+	if err := verifhook.Fault("fs.walk", dirPath); err != nil {
+		return err
+	}
 	return filepath.Walk(dirPath, func(path string, info os.FileInfo, err error) error {
 		if err != nil {
 			return err
